@@ -10,6 +10,7 @@ Only the public API of haiway is used, with one exception: the identity of the c
 (`TaskGroupContext._context`), which degrades to the wildcard "?" if it cannot be read.
 """
 import asyncio
+import sys
 import logging
 from typing import Any
 import os
@@ -522,6 +523,22 @@ class World:
             elif k == "reenter":
                 # a second attempt to enter the same async scope object (caught by the code that tries)
                 kind, sid, obj = self.prepared
+                if kind == "update":
+                    # an update object that is in use is entered once more: refused - or a block of its own, left later
+                    try:
+                        obj.__enter__()
+                    except Exception:  # noqa: BLE001
+                        self.events.append((name, "try", "refused"))
+                        continue
+                    self.events.append((name, "reentered", sid))
+                    try:
+                        await self.block(name)
+                    except BaseException:
+                        if not obj.__exit__(*sys.exc_info()):
+                            raise
+                    else:
+                        obj.__exit__(None, None, None)
+                    continue
                 try:
                     async with obj:
                         pass
